@@ -101,68 +101,90 @@ func kindOf(op Op) string {
 
 // ------------------------------------------------------------------ generator
 
-func genObj(t *rapid.T, manifestOnly bool) Obj {
-	w := rapid.IntRange(0, 99).Draw(t, "objtype")
-	switch {
-	case w < 45:
-		return Obj{"image", rapid.IntRange(0, nImages-1).Draw(t, "img")}
-	case w < 70:
-		return Obj{"index", rapid.IntRange(0, nIndexes-1).Draw(t, "idx")}
-	default:
-		return Obj{"artifact", rapid.IntRange(0, nArtifacts-1).Draw(t, "art")}
+// pick draws an index in [0,n) that is close to uniform. rapid's own integer
+// and SampledFrom draws are deliberately biased towards small values (about
+// 40% of IntRange(0,99) draws are below 10), which would starve the later
+// alternatives of every weighted choice; a multiplicative hash of a drawn
+// word spreads them out again and still shrinks to alternative 0.
+func pick(t *rapid.T, label string, n int) int {
+	x := rapid.Uint64().Draw(t, label)
+	return int(((x * 0x9E3779B97F4A7C15) >> 33) % uint64(n))
+}
+
+// weighted picks an alternative by weight.
+func weighted(t *rapid.T, label string, names []string, weights []int) string {
+	total := 0
+	for _, w := range weights {
+		total += w
 	}
+	x := pick(t, label, total)
+	for i, w := range weights {
+		if x < w {
+			return names[i]
+		}
+		x -= w
+	}
+	return names[0]
+}
+
+func genObj(t *rapid.T) Obj {
+	switch weighted(t, "objtype", []string{"image", "index", "artifact"}, []int{45, 25, 30}) {
+	case "image":
+		return Obj{"image", pick(t, "img", nImages)}
+	case "index":
+		return Obj{"index", pick(t, "idx", nIndexes)}
+	}
+	return Obj{"artifact", pick(t, "art", nArtifacts)}
 }
 
 func genOp(t *rapid.T, pre bool, seenTags []string, seenObjs []Obj) Op {
-	w := rapid.IntRange(0, 99).Draw(t, "kind")
 	pickTag := func() string {
-		if len(seenTags) > 0 && rapid.IntRange(0, 9).Draw(t, "usetag") < 7 {
-			return rapid.SampledFrom(seenTags).Draw(t, "seentag")
+		if len(seenTags) > 0 && pick(t, "usetag", 10) < 7 {
+			return seenTags[pick(t, "seentag", len(seenTags))]
 		}
-		return rapid.SampledFrom(tagPool).Draw(t, "tag")
+		return tagPool[pick(t, "tag", len(tagPool))]
 	}
-	var bounds []int
+	kinds := []string{"put", "blob", "tagdel", "mandel", "close", "copy", "import"}
+	w := []int{38, 8, 10, 10, 8, 14, 12}
 	if pre {
-		bounds = []int{8, 58, 66, 74, 80, 91, 100} // blob put tagdel mandel close copy import
-	} else {
-		bounds = []int{10, 50, 60, 70, 78, 90, 100}
+		w = []int{50, 6, 7, 7, 5, 14, 11}
 	}
-	switch {
-	case w < bounds[0]:
-		o := Obj{"blob", rapid.IntRange(0, nBlobs-1).Draw(t, "blob")}
-		if rapid.IntRange(0, 5).Draw(t, "cfgblob") == 0 {
-			o = Obj{"config", rapid.IntRange(0, nImages-1).Draw(t, "cfg")}
+	switch weighted(t, "kind", kinds, w) {
+	case "blob":
+		o := Obj{"blob", pick(t, "blob", nBlobs)}
+		if pick(t, "cfgblob", 6) == 0 {
+			o = Obj{"config", pick(t, "cfg", nImages)}
 		}
-		return Op{Kind: "blob", Obj: o, NoDesc: rapid.IntRange(0, 3).Draw(t, "nodesc") == 0}
-	case w < bounds[1]:
-		op := Op{Kind: "put", Obj: genObj(t, true), Deep: pre}
-		switch m := rapid.IntRange(0, 9).Draw(t, "putmode"); {
-		case m < 6:
+		return Op{Kind: "blob", Obj: o, NoDesc: pick(t, "nodesc", 4) == 0}
+	case "put":
+		op := Op{Kind: "put", Obj: genObj(t), Deep: pre}
+		switch weighted(t, "putmode", []string{"tag", "digest", "child"}, []int{6, 2, 2}) {
+		case "tag":
 			op.Tag = pickTag()
-		case m < 8:
-		default:
+		case "child":
 			op.Child = true
 		}
 		return op
-	case w < bounds[2]:
+	case "tagdel":
 		return Op{Kind: "tagdel", Tag: pickTag()}
-	case w < bounds[3]:
+	case "mandel":
 		var o Obj
-		if len(seenObjs) > 0 && rapid.IntRange(0, 9).Draw(t, "useobj") < 8 {
-			o = rapid.SampledFrom(seenObjs).Draw(t, "seenobj")
+		if len(seenObjs) > 0 && pick(t, "useobj", 10) < 8 {
+			o = seenObjs[pick(t, "seenobj", len(seenObjs))]
 		} else {
-			o = genObj(t, true)
+			o = genObj(t)
 		}
 		return Op{Kind: "mandel", Obj: o}
-	case w < bounds[4]:
+	case "close":
 		return Op{Kind: "close"}
-	case w < bounds[5]:
-		return Op{Kind: "copy", Src: rapid.SampledFrom(sourceTags()).Draw(t, "src"), Tag: pickTag(),
-			Referrers: rapid.IntRange(0, 2).Draw(t, "referrers") == 0, DigestTags: rapid.IntRange(0, 4).Draw(t, "digesttags") == 0}
+	case "copy":
+		src := sourceTags()
+		return Op{Kind: "copy", Src: src[pick(t, "src", len(src))], Tag: pickTag(),
+			Referrers: pick(t, "referrers", 3) == 0, DigestTags: pick(t, "digesttags", 5) == 0}
 	default:
-		o := Obj{"image", rapid.IntRange(0, nImages-1).Draw(t, "img")}
-		if rapid.IntRange(0, 2).Draw(t, "impidx") == 0 {
-			o = Obj{"index", rapid.IntRange(0, nIndexes-1).Draw(t, "idx")}
+		o := Obj{"image", pick(t, "img", nImages)}
+		if pick(t, "impidx", 3) == 0 {
+			o = Obj{"index", pick(t, "idx", nIndexes)}
 		}
 		return Op{Kind: "import", Obj: o, Tag: pickTag()}
 	}
@@ -170,7 +192,7 @@ func genOp(t *rapid.T, pre bool, seenTags []string, seenObjs []Obj) Op {
 
 func gen(t *rapid.T) Case {
 	c := Case{
-		Prep:      rapid.IntRange(0, 9).Draw(t, "prep") != 0,
+		Prep:      pick(t, "prep", 10) != 0,
 		DirExists: rapid.Bool().Draw(t, "direxists"),
 	}
 	var tags []string
@@ -195,13 +217,13 @@ func gen(t *rapid.T) Case {
 			}
 		}
 	}
-	nPre := rapid.IntRange(0, 6).Draw(t, "npre")
+	nPre := []int{0, 1, 2, 2, 3, 3, 4, 4, 5, 6}[pick(t, "npre", 10)]
 	for i := 0; i < nPre; i++ {
 		op := genOp(t, true, tags, objs)
 		c.Pre = append(c.Pre, op)
 		note(op)
 	}
-	nVic := rapid.SampledFrom([]int{1, 1, 1, 2, 2, 3}).Draw(t, "nvictim")
+	nVic := []int{1, 1, 1, 2, 2, 3}[pick(t, "nvictim", 6)]
 	for i := 0; i < nVic; i++ {
 		op := genOp(t, false, tags, objs)
 		c.Victim = append(c.Victim, op)
@@ -1198,11 +1220,9 @@ func checkInner(c Case, ev *evid.Collector, shard, nshards int) ([]finding, erro
 		return nil, nil
 	}
 	ks := chooseKs(c.K, cnt.Calls)
-	if c.K.Mode == "all" {
-		ev.Set("exhaustive_over_k_per_script", true)
-		if shard == 0 {
-			ev.Add("scripts_all_k", 1)
-		}
+	if c.K.Mode == "all" && shard == 0 {
+		ev.Add("scripts_with_every_k_executed", 1)
+		ev.Add("crash_points_of_those_scripts", N)
 	}
 
 	var out []finding
@@ -1318,9 +1338,17 @@ func checkInner(c Case, ev *evid.Collector, shard, nshards int) ([]finding, erro
 	return out, nil
 }
 
+// verbose, when set, receives every finding (known ones included).
+var verbose func(string)
+
 // report hands every finding to the collector (known signatures are counted
 // there) and returns the first one that is not known.
 func report(ev *evid.Collector, c Case, fs []finding) *evid.Violation {
+	if verbose != nil {
+		for _, f := range fs {
+			verbose(fmt.Sprintf("finding (known=%v) %s: %s", ev.IsKnown(f.V.Sig), f.V.Sig, f.V.Msg))
+		}
+	}
 	var first *evid.Violation
 	seen := map[string]bool{}
 	// unknown signatures first, in clause order; one record per signature and script
@@ -1399,7 +1427,11 @@ func TestVerifKinds(t *testing.T) {
 			t.Fatalf("matrix case %d: %v", i, err)
 		}
 	}
-	ev.Set("kind_matrix_cases", len(kindMatrix()))
+	if shard == 0 {
+		ev.Set("kind_matrix_scripts", len(kindMatrix()))
+		ev.Set("exhaustive_k_kind_matrix", true)
+		ev.Set("exhaustive_k_kind_matrix_space", "every crash position k in 1..N of every script of the fixed kind matrix (and, in the thorough tier, of every generated script)")
+	}
 }
 
 func TestVerifReplayDir(t *testing.T) {
@@ -1429,10 +1461,12 @@ func TestVerifReplay(t *testing.T) {
 	if err != nil {
 		t.Fatal(err)
 	}
+	verbose = func(s string) { t.Log(s) }
+	defer func() { verbose = nil }()
 	// crash positions of concurrent operations (image copy) can move between runs
 	reps := 1
 	for _, op := range c.Victim {
-		if op.Kind == "copy" {
+		if op.Kind == "copy" && c.K.Mode == "exact" {
 			reps = 5
 		}
 	}
